@@ -194,13 +194,18 @@ func genFixture(r *vh.Rng, kind string, plus bool) (*world, []any) {
 	return w, append([]any(nil), w.objs...)
 }
 
+// The fixtures do NOT depend on the seed of the run: the set of (leaf, payload) pairs, and therefore the
+// set of known findings it hits on an unchanged tree, is the same for every VERIF_SEED.
+var fixtureSeeds = []uint64{1, 2}
+
 type enumEntry struct {
-	kind string
-	cand int
-	obj  int // index among targets
-	leaf int
-	path string
-	plus bool
+	fseed uint64
+	kind  string
+	cand  int
+	obj   int // index among targets
+	leaf  int
+	path  string
+	plus  bool
 }
 
 var enumCache = map[uint64][]enumEntry{}
@@ -211,17 +216,19 @@ func enumerate(seed uint64) []enumEntry {
 		return e
 	}
 	var out []enumEntry
-	for _, plus := range []bool{false, true} {
-		seen := map[string]bool{}
-		for ki, kind := range fixtureKinds {
-			for j := 0; j < 120; j++ {
-				r := vh.NewRng(seed).Fork(uint64(900000 + 1000*ki + j))
-				_, targets := genFixture(r, kind, plus)
-				for oi, o := range targets {
-					for li, l := range leavesOf(o) {
-						if !seen[l.path] {
-							seen[l.path] = true
-							out = append(out, enumEntry{kind: kind, cand: 1000*ki + j, obj: oi, leaf: li, path: l.path, plus: plus})
+	for _, fs := range fixtureSeeds {
+		for _, plus := range []bool{false, true} {
+			seen := map[string]bool{}
+			for ki, kind := range fixtureKinds {
+				for j := 0; j < 120; j++ {
+					r := vh.NewRng(fs).Fork(uint64(900000 + 1000*ki + j))
+					_, targets := genFixture(r, kind, plus)
+					for oi, o := range targets {
+						for li, l := range leavesOf(o) {
+							if !seen[l.path] {
+								seen[l.path] = true
+								out = append(out, enumEntry{fseed: fs, kind: kind, cand: 1000*ki + j, obj: oi, leaf: li, path: l.path, plus: plus})
+							}
 						}
 					}
 				}
@@ -241,9 +248,9 @@ func payloadCount(seed uint64, tier string) int {
 func runPayload(seed uint64, id int, k int) (c Case) {
 	en := enumerate(seed)
 	e := en[k%len(en)]
-	pi := (k/len(en) + int(seed%uint64(len(payloads))) + k%len(en)) % len(payloads)
+	pi := (k / len(en)) % len(payloads)
 	kind := e.kind
-	r := vh.NewRng(seed).Fork(uint64(900000 + e.cand))
+	r := vh.NewRng(e.fseed).Fork(uint64(900000 + e.cand))
 	w, targets := genFixture(r, kind, e.plus)
 	c = Case{ID: id, Class: "payload", Seed: seed, K: k, Flags: w.flags, Res: w.res}
 	defer func() {
